@@ -1,0 +1,15 @@
+//go:build verif
+
+package hsmsss
+
+// Verification-only exports (build tag `verif`): the two pure linktest failure-accounting rules.
+
+// VerifLinktestFailureStep is linktestFailureStep.
+func VerifLinktestFailureStep(suppress bool, recvNow, sentAt, inflight int64, fails int, recvAtLastFail int64) (newFails int, newRecvAtLastFail int64, credited bool) {
+	return linktestFailureStep(suppress, recvNow, sentAt, inflight, fails, recvAtLastFail)
+}
+
+// VerifLinktestDisconnectRecheck is linktestDisconnectRecheck.
+func VerifLinktestDisconnectRecheck(suppress bool, inflight, recvNow, sentAt int64) bool {
+	return linktestDisconnectRecheck(suppress, inflight, recvNow, sentAt)
+}
